@@ -141,6 +141,10 @@ func forkAndExecInChild(r *Runner, argv0 *byte, argv, env []*byte, workdir, host
 		if err1 != 0 {
 			childExitError(pipe, LocSetUid, err1)
 		}
+		// the kernel clears the parent death signal when the effective ids change: arm it again
+		if r.Ptrace {
+			syscall.RawSyscall(syscall.SYS_PRCTL, syscall.PR_SET_PDEATHSIG, uintptr(syscall.SIGKILL), 0)
+		}
 	}
 
 	// Pass 1 & pass 2 assigns fds for child process
